@@ -324,3 +324,14 @@ Theorem C14_min_pow2_binary64 : forall k p s xs xs', min_new FOps p = Ok s -> Fo
   length (res_outs (min_next FOps) s xs) = length xs ->
   Forall2 (sinf k) (res_outs (min_next FOps) s xs) (res_outs (min_next FOps) s xs').
 Proof. exact min_pow2_covariant. Qed.
+
+(* ... and Maximum, the mirror image (sninf = scaled, or both -infinity) *)
+From TA Require Import Proofs.FloatScaleMax.
+Theorem C14_max_stream_pow2_binary64 : forall k xs xs' s s', rel_max k s s' -> Forall2 (sninf k) xs xs' ->
+  length (res_outs (max_next FOps) s xs) = length xs ->
+  Forall2 (sninf k) (res_outs (max_next FOps) s xs) (res_outs (max_next FOps) s' xs').
+Proof. exact max_stream_pow2. Qed.
+Theorem C14_max_pow2_binary64 : forall k p s xs xs', max_new FOps p = Ok s -> Forall2 (scaled k) xs xs' ->
+  length (res_outs (max_next FOps) s xs) = length xs ->
+  Forall2 (sninf k) (res_outs (max_next FOps) s xs) (res_outs (max_next FOps) s xs').
+Proof. exact max_pow2_covariant. Qed.
